@@ -731,6 +731,12 @@ class ExprMixin:
                 self.ctx.oblige(path, 'defined', f'.{name} on a non-str datum (AttributeError)', D.is_DStr(base.t), ln)
                 return VBoundStr(VStr(D.s(base.t)), name)
             raise OutOfReach(f'attribute {name} on Any datum')
+        if isinstance(base, VEnumMember):
+            if name == 'value':
+                return base.val
+            if name == 'name':
+                return VStrConst(base.name)
+            raise OutOfReach(f'enum attribute {name}')
         if isinstance(base, VEnum):
             if name == 'value':
                 return self.enum_value(base)
@@ -753,6 +759,9 @@ class ExprMixin:
                 return VFunc(m, base if m.is_classmethod else None)
             cc = self.ctx.index.lookup_class_const(ci, name)
             if cc is not None:
+                if ci.is_enum():
+                    # member of an enumeration without an SMT sort (nested / local enums): only .value and .name are used
+                    return VEnumMember(self.eval_const(cc[0].module, cc[1]), name)
                 return self.eval_const(cc[0].module, cc[1])
             raise OutOfReach(f'class attribute {ci.name}.{name}')
         if isinstance(base, VModule):
@@ -1268,6 +1277,13 @@ class VBoundPy(VPy):
         super().__init__(attr_val.t)
         self.obj = obj
         self.name = name
+
+
+class VEnumMember(Val):
+    def __init__(self, val, name):
+        self.val = val
+        self.name = name
+        self.kind = ('enummember',)
 
 
 class VBoundStr(Val):
